@@ -12,7 +12,7 @@ from vf.checks.c11 import apply_ops, first_diff
 PROP = "C12"
 RULE = (
     "For Hypothesis-generated state pairs (old state S0 on disk, new state S1 in memory) x {json, pickle} x prior "
-    "on-disk configuration {no file; good file; good + stale .bak; good + stale truncated .tmp; good + both; good + a complete, LONGER stale .tmp}: the operation "
+    "on-disk configuration {no file; good file; good + stale .bak; good + stale truncated .tmp; good + both; good + a complete, LONGER stale .tmp; good file reached through a symbolic link}: the operation "
     "trace of one complete save is recorded through the file interposer (open, every write, flush, fsync, close, "
     "both renames, remove) and EVERY operation index k is enumerated x {crash before op k, crash after op k, op k "
     "fails with OSError} x durability {all written data survives; unsynced data lost -> synced prefix / cut in "
@@ -23,7 +23,7 @@ RULE = (
     "(state hash, format, prior, k, mode, durability variant)."
 )
 
-PRIORS = ("none", "good", "good+bak", "good+tmp", "good+bak+tmp", "good+bigtmp")
+PRIORS = ("none", "good", "good+bak", "good+tmp", "good+bak+tmp", "good+bigtmp", "good+symlink")
 MODES = ("crash_before", "crash_after", "fail")
 
 
@@ -63,7 +63,12 @@ class Setup:
             old_bytes, self.s0 = _make(fake, version, self.path, case["old"])
             stale_bytes, _ = _make(fake, version, self.path, case["stale"])
         self.files = {}
-        if prior != "none":
+        if "symlink" in prior:
+            # the configured persistence file is a symbolic link to the real file in another directory
+            # (save_sensors resolves it with realpath; the backup lives next to the link)
+            self.files[os.path.join("store", os.path.basename(self.path))] = old_bytes
+            self.files[os.path.basename(self.path)] = ("link", os.path.join("store", os.path.basename(self.path)))
+        elif prior != "none":
             self.files[os.path.basename(self.path)] = old_bytes
         else:
             self.s0 = drive.typed({})
@@ -97,8 +102,7 @@ def _make(fake, version, path, lines):
     life.stop()
     with open(path, "rb") as fh:
         data = fh.read()
-    for name in os.listdir(os.path.dirname(path)):
-        os.remove(os.path.join(os.path.dirname(path), name))
+    persist.restore(os.path.dirname(path), {})
     return data, proj
 
 
